@@ -13,5 +13,6 @@ Rows2(f) == SetToSeq({<<p[1], p[2], f[p]>> : p \in DOMAIN f})
 Emit == pc = "done" => PrintT("VEC " \o ToJson([src |-> src, ccut |-> CatCut, wcut |-> WordCut, acut |-> AfixCut, nsamples |-> nsamples,
                                                  target |-> Rows1(out.target), words |-> Rows1(out.words),
                                                  seen |-> Rows2(out.seen), unary |-> Rows2(out.unary),
-                                                 prefixes |-> Rows1(out.prefixes), suffixes |-> Rows1(out.suffixes)]))
+                                                 prefixes |-> Rows1(out.prefixes), suffixes |-> Rows1(out.suffixes),
+                                                 mode |-> Mode, sents |-> out.sents, conll |-> out.conll]))
 =============================================================================
